@@ -748,7 +748,7 @@ class Server(Acceptor):
                               store=self.store,
                               timeout=self.timeout)
             if ca in self.ixes and self.ixes[ca] is not incomer:
-                self.shutdownIx[ca]
+                self.shutdownIx(ca)
             self.ixes[ca] = incomer
 
     def serviceConnects(self):
@@ -933,7 +933,8 @@ class ServerTls(Server):
                                  certpath=self.certpath,
                                  cafilepath=self.cafilepath,
                                 )
-
+            if ca in self.cxes and self.cxes[ca] is not incomer:
+                self.cxes[ca].shutdown()
             self.cxes[ca] = incomer
 
     def serviceCxes(self):
@@ -943,6 +944,8 @@ class ServerTls(Server):
         """
         for ca, cx in self.cxes.items():
             if cx.serviceHandshake():
+                if ca in self.ixes and self.ixes[ca] is not cx:
+                    self.shutdownIx(ca)
                 self.ixes[ca] = cx
                 del self.cxes[ca]
 
